@@ -332,11 +332,12 @@ let dispatch mode f =
        (match r2 with
         | nfiles :: r3 ->
           let files = take_files (int_of_string nfiles) r3 [] in
-          let disp tab = (fun id -> match List.find_opt (fun (_, i) -> i = id) tab with
-              | Some (sp :: _, _) -> sp | _ -> []) in
+          (* how a name is written back as text: the Display impls, translated from the source on every run *)
+          let disp tab = (fun id -> match List.find_opt (fun (i, _) -> i = id) tab with
+              | Some (_, sp) -> sp | None -> []) in
           let (optab, regtab) = (match arch with
-              | "z80" -> (z80_op_table, z80_reg_table) | "sm83" -> (sm83_op_table, sm83_reg_table)
-              | _ -> (mos_op_table, mos_reg_table)) in
+              | "z80" -> (z80_op_display, z80_reg_display) | "sm83" -> (sm83_op_display, sm83_reg_display)
+              | _ -> (mos_op_display, mos_reg_display)) in
           let budget = nat_of_int (200 + 40 * List.fold_left (fun a (_, fd) ->
               a + (match fd.fd_toks with Some t -> List.length t | None -> 0)) 0 files) in
           let ps = if paths = "" then [] else List.map path_of (split '|' paths) in
